@@ -14,7 +14,7 @@ if ! (cd "$TMP" && git apply --whitespace=nowarn "$PATCH" 2>/dev/null || patch -
 fi
 if [ "$1" = "ALL" ]; then
   # one load of the patched tree for all claimed properties
-  OUT="$("$VERIF/bin/icecheck" -matrix -repo "$TMP" -verif "$VERIF" 2>&1)"
+  OUT="$("${ICECHECK_BIN:-$VERIF/bin/icecheck}" -matrix -repo "$TMP" -verif "$VERIF" 2>&1)"
   if echo "$OUT" | grep -qE '^C[0-9]+ rc='; then echo "$OUT" | grep -E '^(C[0-9]+ rc=|INFRA)'; else echo "CHECKER-CRASH rc=2 violations=1 $(echo "$OUT" | head -3 | tr '\n' ' ')"; fi
   exit 0
 fi
